@@ -188,6 +188,10 @@ pub fn check_rule(text: &str, n_interp: usize, stats: &mut Stats, fails: &mut Ve
     let mu = program.clone().mu();
     stats.rules += 1;
     if nat.is_some() { stats.natural_accepted += 1; }
+    // C18: translating the same program again gives the same theory
+    if program.clone().tau_star() != tau || program.clone().mu() != mu || program.clone().natural() != nat {
+        fails.push(Failure { property: "C18", input: text.into(), detail: "translating the same program twice gives different theories".into() });
+    }
     if tau.formulas.len() != 1 || mu.formulas.len() != 1 || nat.as_ref().is_some_and(|n| n.formulas.len() != 1) {
         fails.push(Failure { property: "C01", input: text.into(), detail: "a program of one rule is not translated to one sentence".into() });
         return;
